@@ -99,6 +99,46 @@ fn into_sim_instr_table() {
     }
 }
 
+/// C02: every label operand must be defined -- whichever instruction takes it: with an undefined label the
+/// instruction does not assemble and the error names the label.  One obligation per instruction (with the instruction
+/// symbolic the eight `to_uppercase` paths did not finish in 25 min).
+fn undefined_label(k: u8) {
+    let pc: u16 = kani::any();
+    let sym = empty_sym();
+    let a = any_reg();
+    let cc: u8 = kani::any(); kani::assume(cc < 8);
+    let ai = match k {
+        0 => AsmInstr::BR(cc, PCOffset::Label(Label::new(String::from("a"), 3..4))),
+        1 => AsmInstr::JSR(PCOffset::Label(Label::new(String::from("a"), 3..4))),
+        2 => AsmInstr::LD(a, PCOffset::Label(Label::new(String::from("a"), 3..4))),
+        3 => AsmInstr::LDI(a, PCOffset::Label(Label::new(String::from("a"), 3..4))),
+        4 => AsmInstr::LEA(a, PCOffset::Label(Label::new(String::from("a"), 3..4))),
+        5 => AsmInstr::ST(a, PCOffset::Label(Label::new(String::from("a"), 3..4))),
+        6 => AsmInstr::STI(a, PCOffset::Label(Label::new(String::from("a"), 3..4))),
+        _ => AsmInstr::NOP(PCOffset::Label(Label::new(String::from("a"), 3..4))),
+    };
+    match ai.into_sim_instr(pc, &sym) {
+        Ok(_) => assert!(false, "C02.label: an instruction whose label operand is undefined does not assemble"),
+        Err(e) => { assert!(matches!(e.kind, AsmErrKind::CouldNotFindLabel), "C02.kind: undefined label");
+                    assert!(e.span.first() == (3..4), "C26.span: a label error covers the offending label");
+                    std::mem::forget(e); }
+    }
+}
+macro_rules! undefined_label_harness {
+    ($name:ident, $k:literal) => {
+        #[kani::proof] #[kani::stub(std::hash::RandomState::new, stub_random_state)] #[kani::unwind(8)]
+        fn $name() { undefined_label($k) }
+    };
+}
+undefined_label_harness!(undefined_label_br, 0);
+undefined_label_harness!(undefined_label_jsr, 1);
+undefined_label_harness!(undefined_label_ld, 2);
+undefined_label_harness!(undefined_label_ldi, 3);
+undefined_label_harness!(undefined_label_lea, 4);
+undefined_label_harness!(undefined_label_st, 5);
+undefined_label_harness!(undefined_label_sti, 6);
+undefined_label_harness!(undefined_label_nop, 7);
+
 // ---- C01 (iv) / C02: label operand -> PC offset ----------------------------------------------------
 /// `replace_pc_offset::<N>` on a label (BOUNDED: table with one label, one-letter name; one obligation per
 /// (table entry, query spelling) so that `to_uppercase` runs on concrete text; addresses, PC, external flag symbolic):
